@@ -70,6 +70,22 @@ Theorem C07_vegas_recovery_run M r ss v v' : VInv v M -> v_smooth v = one ->
 Proof. exact (vegas_recovery_run_s1 M r ss v v'). Qed.
 Print Assumptions C07_vegas_recovery_run.
 
+(* Vegas recovery for ANY smoothing admitted by the safety invariant (ceiling bound M >= 20): every healthy saturated non-probe sample at the baseline RTT
+   gains at least smoothing/2 towards the ceiling, est' >= min(est, max - 1) + smoothing/2; n of them give est_n >= min(est_0 + n s/2, max - 1 + s/2), so the
+   reported estimate is within one of its ceiling after 2 (max - est_0) / smoothing samples - a bound fixed by the configuration. *)
+Theorem C07_vegas_recovers_any_smoothing v M s o : VInv v M -> 20 <= M -> sample_ok s -> vegas_healthy v s ->
+  vegas_step v s = Some o -> (Rmin (R (v_est v)) (IZR (v_max v) - 1) + R (v_smooth v) / 2 <= R (v_est (o_st o)))%R.
+Proof. exact (vegas_recovers v M s o). Qed.
+Print Assumptions C07_vegas_recovers_any_smoothing.
+
+Theorem C07_vegas_recovered M r ss v v' : VInv v M -> 20 <= M ->
+  0 < r < 2^53 -> fin (v_noload v) = true -> R (v_noload v) = IZR r ->
+  Forall (vhealthy_sample M r) ss -> vegas_run_noprobe v ss = Some v' -> ss <> [] ->
+  (IZR (v_max v) - 1 <= R (v_est v) + INR (length ss) * (R (v_smooth v) / 2))%R ->
+  v_max v - 1 <= vegas_est v'.
+Proof. exact (vegas_recovered M r ss v v'). Qed.
+Print Assumptions C07_vegas_recovered.
+
 (* Generated-fact obligation, re-checked on every run against Gen/Tables.v (dumped from /repo's limit/functions as built now):
    the lookup tables and the queue-size / log10 functions agree with the model's closed forms on the table,
    at its boundary and beyond it. *)
